@@ -609,7 +609,9 @@ the three-valued `Step` of the model has no such value, the driver answers `bad-
 def Machine.processTimeout (env : Env) (m : Machine) (s : Step) (h : Height) (r : Round) :
     Machine × List Action :=
   let (m', acts) := m.onTimeout env s h r
-  m'.processLoop env acts none
+  -- since cd6cea9: `if len(timeoutActions) == 0 { return nil }` — a timeout that does not apply any
+  -- more (other height, round or step) is no occasion to run the rules (before, the loop ran anyway)
+  if acts.isEmpty then (m', []) else m'.processLoop env acts none
 
 /-- `ProcessSync`: `ProcessProposal` followed by `ProcessPrecommit` of every precommit, actions
 concatenated. -/
